@@ -111,7 +111,8 @@ def r20_2(cx):
     cx.check(bw == {AC + '::new', AC + '::alloc_or_die', AC + '::release_or_die'}, 'bump-writers', None, 'owning_iovec/src/byte_arena/alloc_cache.rs',
              'the bump pointer is written only by AllocCache::{new, alloc_or_die, release_or_die}', fail_detail='bump pointer written in %s' % sorted(bw))
     rel = prog.fn(AC + '::release_or_die')
-    callers = sorted({cs.fn.name for cs in prog.callers_of(rel.name) if cs.matches(rel)})
+    # (a closure defined in read_n is part of read_n)
+    callers = sorted({cs.fn.name.split('::{closure')[0] for cs in prog.callers_of(rel.name) if cs.matches(rel)})
     cx.check(callers == [BA + '::read_n'], 'rewind-only-read_n', rel, None, 'release_or_die (the only rewind of the bump pointer) is called only from ByteArena::read_n',
              fail_detail='the bump pointer can be rewound from %s: bytes another clone still sees could be re-allocated' % callers)
     ao = prog.fn(AC + '::alloc_or_die')
